@@ -382,6 +382,73 @@ Fixpoint hash_key_on (q : quirks) (h : text -> N) (fs : list field) (u : uri) : 
                 end
   end.
 
+(* ---------- transport by state: __getstate__ / __setstate__ (what the serializers carry for a URI) ---------- *)
+Definition state := (proto * uobj * option text * option text * option Z)%type.
+Definition to_state (u : uri) : state :=
+  (u_proto u, u_obj u, sock_of (u_loc u), host_of (u_loc u), port_of (u_loc u)).
+Definition of_state (st : state) : option uri :=
+  let '(p, o, s, h, pt) := st in
+  match s, h, pt with
+  | None, None, None => Some {| u_proto := p; u_obj := o; u_loc := LNone |}
+  | Some n, None, None => Some {| u_proto := p; u_obj := o; u_loc := LSock n |}
+  | None, Some h, Some z => Some {| u_proto := p; u_obj := o; u_loc := LHost h z |}
+  | _, _, _ => None
+  end.
+
+(* ---------- the name server as a store of URI texts: NameServer.register / lookup / remove / list / yplookup
+   over any storage backend (a map name -> (uri text, tagged?)); register validates with URI() and stores the text,
+   lookup re-parses the stored text ---------- *)
+Definition store := list (text * (text * bool)).
+Fixpoint st_get (s : store) (k : text) : option (text * bool) :=
+  match s with
+  | [] => None
+  | (k', v) :: s' => if text_eqb k k' then Some v else st_get s' k
+  end.
+Fixpoint st_del (s : store) (k : text) : store :=
+  match s with
+  | [] => []
+  | (k', v) :: s' => if text_eqb k k' then st_del s' k else (k', v) :: st_del s' k
+  end.
+(* overwrite: the old entry (if any) goes, the new one is the only entry for k *)
+Definition st_set (s : store) (k : text) (v : text * bool) : store := (k, v) :: st_del s k.
+
+Inductive sop :=
+| SReg (name uritext : text) (tagged validate : bool)
+     (* register(name, uri, safe=False, metadata={"m"} if tagged); validate = given as a string, which register checks with
+        URI(); a URI object is stored as its text form without a check *)
+| SDel (name : text)                           (* remove(name) *)
+| SLookup (name : text)                        (* lookup(name) *)
+| SList                                        (* list() *)
+| SYp                                          (* yplookup(meta_any={"m"}) *)
+| SReopen.                                     (* close the store, open it again (persistent backends) *)
+Inductive sobs :=
+| ORegOk | ORegRejected                        (* PyroError from URI(uri) *)
+| ODel (n : N)
+| OLookup (u : option uri)                     (* None = NamingError *)
+| OLookupBad                                   (* the stored text is rejected by URI(): PyroError *)
+| OListing (l : list (text * text))            (* name, uri text *)
+| ONone.
+
+Definition ns_step (T : tables) (ns_port : Z) (s : store) (op : sop) : store * sobs :=
+  match op with
+  | SReg name t tagged validate =>
+    if validate && negb (match parse T ns_port t with Some _ => true | None => false end) then (s, ORegRejected)
+    else (st_set s name (t, tagged), ORegOk)
+  | SDel name => match st_get s name with Some _ => (st_del s name, ODel 1) | None => (s, ODel 0) end
+  | SLookup name => (s, match st_get s name with
+                        | Some (t, _) => match parse T ns_port t with Some u => OLookup (Some u) | None => OLookupBad end
+                        | None => OLookup None
+                        end)
+  | SList => (s, OListing (map (fun e => (fst e, fst (snd e))) s))
+  | SYp => (s, OListing (map (fun e => (fst e, fst (snd e))) (filter (fun e => snd (snd e)) s)))
+  | SReopen => (s, ONone)
+  end.
+Fixpoint ns_run (T : tables) (ns_port : Z) (s : store) (ops : list sop) : list sobs :=
+  match ops with
+  | [] => []
+  | op :: ops' => let (s', o) := ns_step T ns_port s op in o :: ns_run T ns_port s' ops'
+  end.
+
 (* ---------- what the table-dependent proofs need of the tables (a computed check) ---------- *)
 Definition ascii_digits : list N := [48; 49; 50; 51; 52; 53; 54; 55; 56; 57].
 Definition tables_ok (T : tables) : bool :=
